@@ -293,6 +293,18 @@ def judge(kind, env, sched):
     made = [e for e in log if e[0] == "made"]
     lost = [e for e in log if e[0] == "lost"]
     links = len(env.devices)
+    # a connect that was still in flight when the user called stop()/disconnect(): the device was opened, but the link
+    # was never handed to the protocol (no connection-made), so it is not an established connection of the statement
+    in_flight = 0
+    ok_attempts = [i for i, e in enumerate(log) if e[0] == "attempt" and e[2] == "ok"]
+    for n, i in enumerate(ok_attempts):
+        nxt = ok_attempts[n + 1] if n + 1 < len(ok_attempts) else len(log)
+        seg = log[i + 1 : nxt]
+        if not any(e[0] == "made" for e in seg) and any(e[0] == "env" and e[1] in ("stop", "disconnect") for e in seg):
+            in_flight += 1
+    if in_flight:
+        info["connect_in_flight_at_stop_or_disconnect"] += 1
+        links -= in_flight
     stop_t = next((e[1] for e in log if e[0] == "stop-returned"), None)
     stop_idx = next((i for i, e in enumerate(log) if e[0] == "stop-returned"), None)
     settled = next((e for e in log if e[0] == "settled"), None)
@@ -378,7 +390,8 @@ def scripts(kind, tier):
 
 
 def _explore(args):
-    kind, script_idx, answers, actions, bound, deadline = args
+    kind, script_idx, answers, actions, bound, deadline = args[:6]
+    roots, limit = (args[6], args[7]) if len(args) > 6 else (None, None)
     res = S.Result()
     found = {}
     info = collections.Counter()
@@ -397,12 +410,14 @@ def _explore(args):
             if sig not in found or npre < found[sig][2]:
                 found[sig] = (msg, list(sched.choices), npre, answers, actions)
 
-    complete, _ = S.explore(make, check, bound, res, deadline=deadline)
-    return kind, script_idx, complete, res.executions, res.points, len(res.distinct_points), found, dict(info)
+    complete, leftover = S.explore(make, check, bound, res, deadline=deadline, roots=roots, expand_limit=limit)
+    if limit is None:
+        leftover = []
+    return kind, script_idx, complete, res.executions, res.points, len(res.distinct_points), found, dict(info), leftover
 
 
 def run_part(report, tier):
-    bound = 0 if tier == "quick" else 1
+    bound = 1 if tier == "quick" else 2
     deadline = time.time() + (120 if tier == "quick" else 2400)
     jobs = []
     for kind in ("serial", "tcp"):
@@ -412,16 +427,31 @@ def run_part(report, tier):
     total = collections.Counter()
     info = collections.Counter()
     incomplete = 0
+    by_key = {(j[0], j[1]): j for j in jobs}
+    incomplete_scripts = set()
+
+    def absorb(kind, idx, complete, execs, points, distinct, found, inf):
+        total["executions"] += execs
+        total["points"] += points
+        info.update(inf)
+        if not complete:
+            incomplete_scripts.add((kind, idx))
+        for sig, (msg, choices, npre, answers, actions) in found.items():
+            report.add(Violation(PROP, sig, f"{msg} (schedule with {npre} preemption(s))", {"kind": "threaded", "check": PROP, "gateway": kind, "answers": answers, "actions": [list(a) for a in actions], "choices": choices}))
+
     with ctx.Pool(NPROC) as pool:
-        for kind, idx, complete, execs, points, distinct, found, inf in pool.imap_unordered(_explore, jobs, chunksize=1):
-            total["executions"] += execs
-            total["points"] += points
+        # first a bounded number of executions per script, then the unexplored sub-trees spread over all workers
+        second = []
+        for kind, idx, complete, execs, points, distinct, found, inf, leftover in pool.imap_unordered(_explore, [j + (None, 40) for j in jobs], chunksize=1):
             total[f"scripts_{kind}"] += 1
-            info.update(inf)
-            if not complete:
-                incomplete += 1
-            for sig, (msg, choices, npre, answers, actions) in found.items():
-                report.add(Violation(PROP, sig, f"{msg} (schedule with {npre} preemption(s))", {"kind": "threaded", "check": PROP, "gateway": kind, "answers": answers, "actions": [list(a) for a in actions], "choices": choices}))
+            absorb(kind, idx, complete, execs, points, distinct, found, inf)
+            nparts = min(16, max(1, len(leftover) // 4))
+            for part in (leftover[i::nparts] for i in range(nparts)):
+                if part:
+                    second.append(by_key[(kind, idx)] + (part, None))
+        for kind, idx, complete, execs, points, distinct, found, inf, _ in pool.imap_unordered(_explore, second, chunksize=1):
+            absorb(kind, idx, complete, execs, points, distinct, found, inf)
+    incomplete = len(incomplete_scripts)
     for v in list(report.violations.values()):
         rep = v.replay or {}
         if rep.get("kind") != "threaded":
